@@ -192,6 +192,13 @@ void do_exact(Ctx<W> &x, const std::string &variant) {
     std::mutex events_mu;
     parmcb::verif::search_hook() = [&](const parmcb::verif::SearchEvent &ev) { std::lock_guard<std::mutex> lk(events_mu); events.push_back(ev); };
 #endif
+    // the sorted candidate list of the tree variants (hook in parmcb_sva_trees.hpp)
+    std::vector<parmcb::verif::CandidateEvent> cand_events;
+    parmcb::verif::candidates_hook() = [&](const std::vector<parmcb::verif::CandidateEvent> &evs) { cand_events = evs; };
+    if (variant == "fvs" || variant == "fvs_tbb") {
+        std::vector<typename Ctx<W>::Vertex> fv; parmcb::greedy_fvs(x.g, std::back_inserter(fv));
+        std::cout << "fvs"; for (auto v : fv) std::cout << " " << v; std::cout << "\n";
+    }
     if (variant == "signed") ret = parmcb::mcb_sva_signed(x.g, wm, std::back_inserter(cycles));
     else if (variant == "fvs") ret = parmcb::mcb_sva_fvs_trees(x.g, wm, std::back_inserter(cycles));
     else if (variant == "iso") ret = parmcb::mcb_sva_iso_trees(x.g, wm, std::back_inserter(cycles));
@@ -202,6 +209,12 @@ void do_exact(Ctx<W> &x, const std::string &variant) {
     shim_end(variant == "signed_tbb");
 #ifdef PARMCB_VERIF
     parmcb::verif::search_hook() = nullptr;
+    parmcb::verif::candidates_hook() = nullptr;
+    if (x.kind != "exactf" && (variant == "fvs" || variant == "iso" || variant == "fvs_tbb" || variant == "iso_tbb")) {
+        for (auto &ev : cand_events)
+            std::cout << "sc " << ev.tree << " " << ev.source << " " << ev.edge << " " << x.scaled((W) ev.weight) << "\n";
+        std::cout << "nsc " << cand_events.size() << "\n";
+    }
     if (x.kind != "exactf")
         for (auto &ev : events) {
             std::cout << "hs " << ev.phase << " " << (ev.hidden_branch ? 1 : 0) << " " << ev.source << " ";
